@@ -89,3 +89,28 @@ package tsidtracker
 //@     ghostset ghostat(0, id, "bulkWitTags") = tagValue
 //@   ensures [first-matcher-adds-only-matched] implies(old(tr.first) && result == nil, forallkey(x, uint64, implies(haskey(tr.tsidInfoMap, x), old(haskey(tr.tsidInfoMap, x)) || matchedVia(rawTagValueToTSIDs, x, ghostat(0, x, "bulkWitTags")))))
 //@ end
+
+// C09 (a selector without value matchers returns every series of the metric): a
+// `key=*` filter folds ALL series it lists into the selection whenever the
+// query has no value matcher — also when an earlier star filter (another tag
+// key) has already put series there: series of one metric need not carry the
+// same tag keys.  With a value matcher present it only annotates (never adds),
+// and it never removes.
+//@ func (*AllMatchedTSIDs).BulkAddStar
+//@   props C09
+//@   requires tr != nil
+//@   loop 1:
+//@     invariant [frame] tr.allTSIDs == old(tr.allTSIDs)
+//@     invariant [old-selection-kept] forallkey(x, uint64, implies(old(haskey(tr.allTSIDs, x)), haskey(tr.allTSIDs, x)))
+//@     invariant [nothing-added-under-a-value-matcher] implies(numValueFiltersNonZero, forallkey(x, uint64, implies(haskey(tr.allTSIDs, x), old(haskey(tr.allTSIDs, x)))))
+//@     invariant [visited-values-fully-added] implies(!numValueFiltersNonZero, forallkey(v, string, implies(visited(1, v) && haskey(rawTagValueToTSIDs, v), forallkey(x, uint64, implies(haskey(rawTagValueToTSIDs[v], x), haskey(tr.allTSIDs, x))))))
+//@   loop 2:
+//@     invariant [frame] tr.allTSIDs == old(tr.allTSIDs)
+//@     invariant [old-selection-kept] forallkey(x, uint64, implies(old(haskey(tr.allTSIDs, x)), haskey(tr.allTSIDs, x)))
+//@     invariant [nothing-added-under-a-value-matcher] implies(numValueFiltersNonZero, forallkey(x, uint64, implies(haskey(tr.allTSIDs, x), old(haskey(tr.allTSIDs, x)))))
+//@     invariant [visited-values-fully-added] implies(!numValueFiltersNonZero, forallkey(v, string, implies(visited(1, v) && v != tagValue && haskey(rawTagValueToTSIDs, v), forallkey(x, uint64, implies(haskey(rawTagValueToTSIDs[v], x), haskey(tr.allTSIDs, x))))))
+//@     invariant [current-value] visited(1, tagValue) && haskey(rawTagValueToTSIDs, tagValue) && tsids == rawTagValueToTSIDs[tagValue] && implies(!numValueFiltersNonZero, forallkey(x, uint64, implies(visited(2, x), haskey(tr.allTSIDs, x))))
+//@   ensures [without-a-value-matcher-every-listed-series-is-selected] implies(result == nil && !numValueFiltersNonZero, forallkey(v, string, implies(haskey(rawTagValueToTSIDs, v), forallkey(x, uint64, implies(haskey(rawTagValueToTSIDs[v], x), haskey(tr.allTSIDs, x))))))
+//@   ensures [the-selection-never-shrinks] implies(result == nil, forallkey(x, uint64, implies(old(haskey(tr.allTSIDs, x)), haskey(tr.allTSIDs, x))))
+//@   ensures [with-a-value-matcher-nothing-is-added] implies(result == nil && numValueFiltersNonZero, forallkey(x, uint64, implies(haskey(tr.allTSIDs, x), old(haskey(tr.allTSIDs, x)))))
+//@ end
